@@ -128,6 +128,9 @@ Record st_case := mkStCase {
   st_ended : bool;
   st_followup : bool    (* a request to the healthy backend succeeded afterwards *)
 }.
-(* result vector: [diff (nothing predicted beyond the monitors); mon_c03_stall_ends; mon_c03_stall_followup; nt_c03] *)
+(* kind 2 (C11, process level): a name removed and added again at another address through the admin API: st_ended = the next
+   requests were served by the new address, st_followup = the admin calls were accepted and the old address served before *)
+(* result vector: [diff (nothing predicted beyond the monitors); mon_c03_stall_ends; mon_c03_stall_followup; nt_c03; mon_c11_readd] *)
 Definition eval_st_case (k : st_case) : list Z :=
-  [ -1; b2z (st_ended k && (st_elapsed_ms k <=? st_read_ms k + 1500)); b2z (st_followup k); 1 ].
+  if Z.eqb (st_kind k) 2 then [ -1; 1; 1; 0; b2z (st_ended k && st_followup k) ]
+  else [ -1; b2z (st_ended k && (st_elapsed_ms k <=? st_read_ms k + 1500)); b2z (st_followup k); 1; 1 ].
